@@ -1,6 +1,63 @@
 package main
 
-import "math/rand"
+import (
+	"math/rand"
+
+	"github.com/zmap/zlint/v3/lint"
+	"verif/harness/internal/corpus"
+	"verif/harness/internal/ev"
+)
 
 // extraTargets: forged objects added to the corpus for history-type checks (filled in by the forging plans).
 func extraTargets(rng *rand.Rand) []*Target { return forgedMultiOffenders(rng) }
+
+// cmdCover: a small set of corpus objects on which every lint that judges anything at all judges at least once (greedy set
+// cover over one sequential pass of the full registry).  Written as cover.json (object ids) for drivers that must start COLD -
+// the free-running concurrent driver lints these objects first, from several goroutines, in a process in which nothing has
+// been linted before, so that whatever a lint or helper builds lazily on first use is built under concurrency.
+func cmdCover(args []string) {
+	parseFlags(args)
+	c := corpus.Load()
+	g := lint.GlobalRegistry()
+	objs := loadTargets(c)
+	judged := make([]map[string]bool, len(objs))
+	all := map[string]bool{}
+	for i, t := range objs {
+		judged[i] = map[string]bool{}
+		rs, esc, hung := runSet(t, g)
+		if rs == nil || esc != "" || hung {
+			continue
+		}
+		for n, r := range rs.Results {
+			if r != nil && r.Status != lint.NA && r.Status != lint.NE {
+				judged[i][n] = true
+				all[n] = true
+			}
+		}
+	}
+	covered := map[string]bool{}
+	var ids []string
+	for len(covered) < len(all) && len(ids) < 150 {
+		best, gain := -1, 0
+		for i := range objs {
+			n := 0
+			for k := range judged[i] {
+				if !covered[k] {
+					n++
+				}
+			}
+			if n > gain {
+				best, gain = i, n
+			}
+		}
+		if best < 0 {
+			break
+		}
+		for k := range judged[best] {
+			covered[k] = true
+		}
+		ids = append(ids, objs[best].ID)
+	}
+	ev.WriteJSON(out("cover.json"), ids)
+	ev.WriteJSON(out("summary.json"), ev.M{"objects": len(ids), "lints_judging": len(all), "covered": len(covered)})
+}
